@@ -529,27 +529,31 @@ func translate(ctx *context, args []Datum) (retLit Datum) {
 		return NewLiteralDatum(src)
 	}
 
-	var toChar string
-	var alreadyTranslated = make(map[string]bool)
-	for index, fromChar := range from {
-		// Ensure we don't translate twice.
-		if _, present := alreadyTranslated[string(fromChar)]; present {
-			continue
+	// Characters, not bytes; every character of the source is looked up
+	// once in 'from' (first occurrence wins), so a replacement is never
+	// translated again.
+	toChars := []rune(to)
+	position := make(map[rune]int)
+	index := 0
+	for _, fromChar := range from {
+		if _, present := position[fromChar]; !present {
+			position[fromChar] = index
 		}
-		alreadyTranslated[string(fromChar)] = true
-
-		// Work out required replacement / removal
-		if index < len(to) {
-			toChar = to[index : index+1]
-		} else {
-			toChar = ""
-		}
-
-		src = strings.Replace(src, string(fromChar), toChar,
-			-1 /* replace all */)
+		index++
 	}
 
-	return NewLiteralDatum(src)
+	var out strings.Builder
+	for _, srcChar := range src {
+		pos, present := position[srcChar]
+		switch {
+		case !present:
+			out.WriteRune(srcChar)
+		case pos < len(toChars):
+			out.WriteRune(toChars[pos])
+		}
+	}
+
+	return NewLiteralDatum(out.String())
 }
 
 func xBoolean(ctx *context, args []Datum) Datum {
